@@ -58,7 +58,12 @@ def scenarios():
                "pre": [], "inv": {"target": "//:x2", "jobs": None, "strategy": "blocked-fifo", "seed": 18, "proc": {"one_cpu": True, "cpu_index": 3},
                                   "outer_env": {"COND_SLOT": "2", "COND_NAME": "outer", "COND_OUT": "/outer/o.task", "COND_DEPS": "", "FORCE_COLOR": "1"}}})
     # COND files that include() other files (whose evaluation takes a few statements)
-    inc = "import math\nBASE = 2\nVALS = []\nfor i in range(4):\n    VALS.append(BASE * i)\nRUN = 'true'\n"
+    # (with an Enum whose members are initialised by a few statements: CPython builds an Enum class inside
+    # EnumType.__new__, which since 3.12 re-creates whatever exception passes through it as type(e)(str(e)) - the same
+    # happens for every Enum of every module imported after the signal handlers are in place)
+    inc = ("import enum, math\nBASE = 2\nVALS = []\nfor i in range(4):\n    VALS.append(BASE * i)\n"
+           "class Mode(enum.Enum):\n    FAST = 1\n    SLOW = 2\n    def __init__(self, level):\n        self.level = level\n        self.threads = level * BASE\n"
+           "RUN = 'true'\n")
     sc.append({"name": "includes-seq", "tasks": [T("i0", "run_experiment"), T("i1", deps=["i0"], pkg="a"), T("i2", "run_experiment", deps=["//a:i1"])],
                "extra_files": {"defs.cond": inc, "a/local.cond": inc}, "cond_prefix": {"": "include('//defs.cond')\ninclude('defs.cond')\n", "a": "include('local.cond')\ninclude('//defs.cond')\n"},
                "pre": [], "inv": {"target": "//:i2", "jobs": None, "strategy": "blocked-fifo", "seed": 19}})
@@ -166,7 +171,7 @@ def inject_case(arg):
         if r.get("exception") == "Deadlock":
             out["violations"].append({"key": "C16:blocked-forever-after-abort", "msg": "after %s at %s cond run blocks forever: %s" % (sig, inj["site"], r.get("deadlock")), "witness": W})
             return out
-        if r.get("exception") == "ConductorAbort" and "SystemExit" in r.get("traceback", ""):
+        if r.get("exception") in ("ConductorAbort", "_Abort") and "SystemExit" in r.get("traceback", ""):  # (the handler raises a subclass since the round-9 repair)
             out["violations"].append({"key": "C16:abort-during-SystemExit-propagation-prints-traceback", "msg": "%s at %s (%s): the command had already reported its error and was exiting (SystemExit in flight); the late abort surfaces as a ConductorAbort traceback (exit status still non-zero)" % (sig, inj["site"], inj.get("func")), "witness": W})
             return out
         if r.get("exception") is not None:
